@@ -169,7 +169,7 @@ def random_spec(rng, ndims, tier='quick', kinds=None, space='X', history=True):
     if kinds:
         opts = [o for o in opts if o.split(':')[0] in kinds or o in kinds]
     o = str(rng.choice(opts))
-    nmax = {1: 4, 2: 3, 3: 2}[ndims]
+    nmax = {1: 4, 2: 3, 3: 2}[ndims] + (tier == 'thorough' and rng.random() < .3)
     if o == 'line':
         spec = dict(kind='line', nodes=random_nodes(rng, nmax))
     elif o == 'rect':
@@ -183,6 +183,9 @@ def random_spec(rng, ndims, tier='quick', kinds=None, space='X', history=True):
     if history:
         maxlen = 2 if ndims < 3 else 1
         h = random_history(rng, maxlen)
+        if ndims == 3 and spec['kind'] == 'simplex' and spec['shape'] == [1, 1, 1] and rng.random() < .5:
+            # two-level chains of the non-commuting tetrahedron children
+            h = [['refined'], ['refined_by', [round(float(f), 4) for f in rng.random(2)]]]
         if h:
             spec['history'] = h
     return spec
